@@ -422,4 +422,79 @@ theorem key_from_aliases (m : Entries) (c : CommandStep) (h : parseCommand m = .
     rw [optField_none hf] at hkey
     exact (Except.ok.inj hkey).symm
 
+theorem lookup_remMap {rest : Entries} (hn : (rest.map (·.1)).Nodup) (k : String) :
+    ((remMap rest).getD []).lookup k = rest.lookup k := by
+  unfold remMap
+  cases rest with
+  | nil => rfl
+  | cons p r =>
+    simp only [List.isEmpty_cons, Bool.false_eq_true, if_false, Option.getD_some]
+    exact lookup_umapOf_nodup hn k
+
+theorem nodup_keys_remMap (rest : Entries) : (((remMap rest).getD []).map (·.1)).Nodup := by
+  unfold remMap
+  split
+  · simp
+  · exact nodup_keys_umapOf rest
+
+/-- With `label` present, `name` is not claimed by any command-step field. -/
+theorem name_not_outline {r : Entries} {v : Val} (h : r.lookup "label" = some v) :
+    "name" ∉ outlineKeys r csD := by
+  intro hmem
+  obtain ⟨f, hf, _, w, ht⟩ := mem_outlineKeys.1 hmem
+  have hk := (fieldTake_some ht).1
+  simp only [Gen.struct_CommandStep, List.mem_cons, List.not_mem_nil, or_false] at hf
+  rcases hf with rfl | rfl | rfl | rfl | rfl | rfl | rfl | rfl | rfl <;>
+    simp [Field.key, Field.aliases] at hk
+  simp [fieldTake, Field.key, h] at ht
+
+theorem label_primary (m : Entries) (c : CommandStep) (h : parseCommand m = .ok c) (v : Val)
+    (hl : m.lookup "label" = some v) (hm : (keysOf m).Nodup) :
+    strOf v = .ok c.label ∧ (c.rem.getD []).lookup "name" = m.lookup "name" := by
+  obtain ⟨_, _, _, hlab, _, hrem⟩ := parseCommand_ok h
+  have hl' : (remainder m outerD).lookup "label" = some v := by rw [lookup_rest (by simp), hl]
+  have hf : fieldOf (taken (remainder m outerD) csD) "Label" = some v := by
+    rw [fieldOf_label, hl']
+  rw [optField_some hf] at hlab
+  refine ⟨hlab, ?_⟩
+  rw [hrem, lookup_remMap (nodup_keys_remainder _ (nodup_keys_remainder _ hm)), lookup_remainder,
+    if_neg (name_not_outline hl'), lookup_rest (by simp)]
+
+/-- `inlineFriendlyMarshalJSON`: a key that is not an outline key reads back the inline entry. -/
+theorem inlineFriendly_lookup (outline : List (String × Val)) (inline : UMap Val) (k : String)
+    (hk : k ∉ outline.map (·.1)) (hn : ((inline.getD []).map (·.1)).Nodup) :
+    ∃ kvs, inlineFriendly outline inline = .umap kvs ∧ kvs.lookup k = (inline.getD []).lookup k ∧
+      (kvs.map (·.1)).Nodup := by
+  refine ⟨_, rfl, ?_, ?_⟩
+  · rw [marshal_umapOf_eq]
+    unfold Parse.umapOf
+    rw [List.foldl_append, lookup_foldl_not_mem _ _ hk]
+    have hn' : ((List.filter (fun p => !(outline.map (·.1)).contains p.1) (inline.getD [])).map (·.1)).Nodup :=
+      hn.sublist (List.filter_sublist.map _)
+    have hp : (!(outline.map (·.1)).contains k) = true := by simpa using hk
+    have hl := lookup_filter_key (fun k => !(outline.map (·.1)).contains k) k (inline.getD [])
+    rw [if_pos hp] at hl
+    rw [lookup_foldl_nodup _ [] hn', hl]
+    cases (inline.getD []).lookup k <;> rfl
+  · rw [marshal_umapOf_eq]
+    exact nodup_keys_umapOf _
+
+
+theorem command_other_keys_preserved (m : Entries) (c : CommandStep) (h : parseCommand m = .ok c)
+    (hm : (keysOf m).Nodup) (k : String) (hk : k ∉ commandKeys) :
+    ∃ kvs, mCommand c = .umap kvs ∧ kvs.lookup k = m.lookup k ∧ (kvs.map (·.1)).Nodup := by
+  obtain ⟨_, _, _, _, _, hrem⟩ := parseCommand_ok h
+  simp only [commandKeys, List.mem_cons, List.not_mem_nil, or_false, not_or] at hk
+  have hk1 : k ∉ ["commands", "command"] := by simp [hk]
+  have hk2 : k ∉ claimKeys csD := by rw [claimKeys_cs]; simp [hk]
+  have hkey : (c.rem.getD []).lookup k = m.lookup k := by
+    rw [hrem, lookup_remMap (nodup_keys_remainder _ (nodup_keys_remainder _ hm)),
+      lookup_remainder_of_not_claim hk2, lookup_rest hk1]
+  rw [← hkey]
+  unfold mCommand
+  refine inlineFriendly_lookup _ c.rem k (fun hx => ?_) (by rw [hrem]; exact nodup_keys_remMap _)
+  simp only [List.map_append, List.mem_append] at hx
+  rcases hx with ((((((hx | hx) | hx) | hx) | hx) | hx) | hx) | hx
+  all_goals (try split at hx) <;> simp at hx <;> simp [hx] at hk
+
 end GoPipeline.Parse
